@@ -975,7 +975,11 @@ class OmniParser(PVLParser):
         all whitespace characters that begin the next line will
         be removed.
         """
-        nodash = re.sub(r"-[\n\r\f]\s*", "", s)
+        # Only the grammar's white space is dropped from the start of
+        # the next line: "\s" would also eat characters that are
+        # content everywhere else (no-break space, U+0085, U+2003, ...).
+        ws = re.escape("".join(self.grammar.whitespace))
+        nodash = re.sub(fr"-[\n\r\f][{ws}]*", "", s)
         self.doc = nodash
 
         return super().parse(nodash)
